@@ -1372,7 +1372,7 @@ class Py2Cpp(ITranspiler):
 	def on_list_comp(self, node: defs.ListComp, projection: str, fors: list[str], condition: str) -> str:
 		projection_type_raw = self.reflections.type_of(node.projection)
 		projection_type = self.to_accessible_name(projection_type_raw)
-		comp_vars = {'projection': projection, 'comp_for': fors[0], 'condition': condition, 'projection_types': [projection_type]}
+		comp_vars = {'projection': projection, 'comp_for': fors[0], 'inner_fors': fors[1:], 'condition': condition, 'projection_types': [projection_type]}
 		return self.render(node, f'comp/{node.classification}', vars=comp_vars)
 
 	def on_dict_comp(self, node: defs.DictComp, projection: str, fors: list[str], condition: str) -> str:
@@ -1380,7 +1380,7 @@ class Py2Cpp(ITranspiler):
 		projection_type_key = self.to_accessible_name(projection_type_raw.attrs[0])
 		projection_type_value = self.to_accessible_name(projection_type_raw.attrs[1])
 		projection_key, projection_value = BlockParser.break_separator(projection[1:-1], ',')
-		comp_vars = {'projection_key': projection_key, 'projection_value': projection_value, 'comp_for': fors[0], 'condition': condition, 'projection_types': [projection_type_key, projection_type_value]}
+		comp_vars = {'projection_key': projection_key, 'projection_value': projection_value, 'comp_for': fors[0], 'inner_fors': fors[1:], 'condition': condition, 'projection_types': [projection_type_key, projection_type_value]}
 		return self.render(node, f'comp/{node.classification}', vars=comp_vars)
 
 	# Operator
